@@ -15,8 +15,14 @@ def type_parts(t):
     return t
 
 
-def column(name, typ, opts, default=None, ref=("other_t", "k")):
-    """opts: ordered list of option words; returns (ddl text, expected column dict, is_pk)"""
+REF_TARGETS = [("other_t", "k"), ("array_items", "id"), ("Orders", "order_id"), ("index_cards", "k"), ("other_t", "k")]
+
+
+def column(name, typ, opts, default=None, ref=None):
+    """opts: ordered list of option words; returns (ddl text, expected column dict, is_pk).  The referenced table is taken in
+    rotation from REF_TARGETS (names that merely BEGIN like a keyword included) - decided by the column name, not at random"""
+    if ref is None:
+        ref = REF_TARGETS[sum(map(ord, name)) % len(REF_TARGETS)]
     text, size = typ
     parts = [name, text]
     exp = dict(name=name, type=type_parts(text), size=size, nullable=True, default=None, unique=False, references=None, check=None)
